@@ -26,6 +26,8 @@ TRANSPARENT_CALLS = {
     "core::borrow::Borrow::borrow": "deref",
 }
 
+IDENTITY_FNS = {"alloc::string::String::as_str", "alloc::string::String::as_ref", "core::ops::deref::Deref::deref", "alloc::string::String::as_mut_str"}
+
 COMMUTATIVE = {"Add", "Mul", "BitAnd", "BitOr", "BitXor", "Eq", "Ne", "AddWithOverflow", "MulWithOverflow"}
 FLIP = {"Lt": "Gt", "Gt": "Lt", "Le": "Ge", "Ge": "Le"}
 
@@ -108,6 +110,8 @@ def shape(e, roles=None, depth=20):
         return "upvar#%d" % e.idx
     if isinstance(e, Const):
         if e.fn:
+            if e.fn in TRANSPARENT_CALLS and TRANSPARENT_CALLS[e.fn] == "deref" or e.fn in IDENTITY_FNS:
+                return "\u03bb(p1)"  # a reference conversion used as a function value: the identity on the value
             lam = lambda_shape(getattr(e, "owner", None), e.fn, False, depth) if e.c.get("fn_local") else None
             return lam if lam is not None else "fn:%s" % nice(e.fn)
         if e.int is not None:
@@ -141,8 +145,8 @@ def shape(e, roles=None, depth=20):
     if isinstance(e, Index):
         xs = shape(e.x, roles, depth - 1)
         is_ = shape(e.i, roles, depth - 1)
-        if is_ == "RangeFull{}" and xs.startswith("array("):
-            return xs  # the full slice of a constant array is that array
+        if is_ == "RangeFull{}":
+            return xs  # the full slice `&x[..]` is a view of all of x
         return "%s[%s]" % (xs, is_)
     if isinstance(e, Downcast):
         return "%s@%s" % (shape(e.x, roles, depth - 1), e.variant)
@@ -190,10 +194,14 @@ def shape(e, roles=None, depth=20):
             return "size_of<%s>" % short_ty(e.t["callee_args"][0])
         if nice(c) in ("Index::index", "IndexMut::index_mut") and len(e.args) == 2:
             xs, is_ = shape(e.args[0], roles, depth - 1), shape(e.args[1], roles, depth - 1)
-            if is_ == "RangeFull{}" and xs.startswith("array("):
+            if is_ == "RangeFull{}":
                 return xs
             return "%s[%s]" % (xs, is_)
         parts = [shape(a, roles, depth - 1) for a in e.args]
+        if cid == "Option::map" and len(parts) == 2 and parts[1] == "\u03bb(p1)":
+            return parts[0]  # mapping a reference conversion over an option keeps the value
+        if cid in ("Option::as_deref", "Option::as_deref_mut") and len(parts) == 1:
+            return "Option::as_ref(%s)" % parts[0]
         if cid in ("PartialEq::eq", "PartialEq::ne") and len(parts) == 2 and parts[1] < parts[0]:
             parts.reverse()  # equality is symmetric
         return "%s(%s)" % (cid, ",".join(parts))
@@ -554,6 +562,7 @@ def arg_expr(body, t, k):
 
 def root_local(e):
     """The local at the root of a place-like expression (through refs, derefs, fields, names)."""
+    _seen_try = False
     while True:
         if isinstance(e, Named):
             # `let a = b;` (also a parameter of an inlined helper bound to the caller's variable): a is b
@@ -563,9 +572,31 @@ def root_local(e):
             if isinstance(inner, (Var, Named)):
                 e = inner
                 continue
+            if isinstance(inner, Field) and inner.idx == 0 and isinstance(inner.x, Downcast) and inner.x.variant == "Continue":
+                base = inner.x.x
+                while isinstance(base, Named):
+                    base = base.x
+                if isinstance(base, Call) and nice(base.callee) == "Try::branch" and base.args:
+                    a0 = base.args[0]
+                    while isinstance(a0, (Named, Ref, Deref)):
+                        a0 = a0.x
+                    if isinstance(a0, Var) and getattr(a0, "ok_payload", None) is not None:
+                        e = a0.ok_payload  # `let v = r?;` where r was built as Ok(p) at one place: v is p
+                        continue
             return e.local
         if isinstance(e, Var):
+            if getattr(e, "ok_payload", None) is not None and _seen_try:
+                e = e.ok_payload  # `?` applied to a value built as Ok(p) at one place: p
+                continue
             return e.local
+        if isinstance(e, Field) and e.idx == 0 and isinstance(e.x, Downcast) and e.x.variant == "Continue":
+            base = e.x.x
+            while isinstance(base, Named):
+                base = base.x
+            if isinstance(base, Call) and nice(base.callee) == "Try::branch" and base.args:
+                _seen_try = True
+                e = base.args[0]
+                continue
         if isinstance(e, (Ref, Deref, Field, Index, Downcast, Cast)):
             e = e.x
             continue
